@@ -23,7 +23,9 @@ CFG = dict(
          "object (http / https / https+insecure against local plain, -tls_ca-trusted and untrusted TLS servers): all kind pairs x both arrival orders, "
          "sampled triples x 6 orders, mixes with the other kinds; END-TO-END op pprof: driver.PProf (setDefaults, parseFlags, fetchProfiles, report) through "
          "-proto -output, an interactive `proto >file`, the web /download handler and -top rows, parsed back; command lines with repeated / failing / "
-         "shuffled mentions, -base / -diff_base lists with empty values, odd drop_frames, 8-source completion orders (deterministic) + random. distinct = sha256 of the input term; non-trivial = >= 2 sources "
+         "shuffled mentions, -base / -diff_base lists with empty values, odd drop_frames, 8-source completion orders (deterministic) + random; header shapes (deterministic): sources in three / four time units "
+         "in every order and by alias, equal units, around failing sources, as bases and across the 128 boundary; default sample type on the first / a "
+         "later / no source, around failures and across the boundary. distinct = sha256 of the input term; non-trivial = >= 2 sources "
          "with at least one failing and one succeeding",
     spec_what="status / merged profile (sample type, contributors in order, weight per key) / per-source error lines differ from what the C16 "
               "statement demands for these source lists and outcomes",
@@ -31,7 +33,9 @@ CFG = dict(
                   "Go sync.WaitGroup happens-before / memory model: goroutine = one atomic slot write, barrier = every index occurs in the order",
                   "completion order is enforced best-effort by gates on the Fetcher (a fetch's return, not its slot write, is sequenced)",
                   "export shims harness/overlay/internal/driver/zz_verif_c16.go (build the profileSource lists like fetchProfiles does)"],
-    assumptions=["end-to-end: Obj.Open never recognises the first argument as a binary; drop_frames of the cases are inert (non-RE2 or matching nothing); "
+    assumptions=["header judgement (hdr_C16): merged unit = finest unit among the fetched sources, default sample type = first non-empty among them; "
+                 "values compared as physical weights (ns); period-type units and multi-column defaults not exercised",
+                 "end-to-end: Obj.Open never recognises the first argument as a binary; drop_frames of the cases are inert (non-RE2 or matching nothing); "
                  "comments compared after de-duplication; -symbolize=none; local (non-remote) outcome kinds only",
                  "transport model (tr_round_trip): TLS policy per request, -tls_cert/-tls_key and the initErr path not exercised; rq_trusted is an oracle",
                  "combine_laws (P_C16.v): eqv equivalence, combine_pair_proper, combine_flat -- to be discharged by the C03/C07 merge model",
